@@ -3608,17 +3608,8 @@ class _SubTensorDict(TensorDictBase):
                 f"got {type(source)}"
             )
         self._source = source
-        idx = (
-            (idx,)
-            if not isinstance(
-                idx,
-                (
-                    tuple,
-                    list,
-                ),
-            )
-            else tuple(idx)
-        )
+        # a list is an index array (td[[0, 2]]), not a tuple of indices
+        idx = (idx,) if not isinstance(idx, tuple) else idx
         if any(item is Ellipsis for item in idx):
             idx = convert_ellipsis_to_idx(idx, self._source.batch_size)
         self._batch_size = _getitem_batch_size(self._source.batch_size, idx)
